@@ -271,6 +271,10 @@ def check(ctx):
              # text with every character XML treats specially, in every order, and the one sequence that is special as a whole
              T.UAString("x[y[0]]>z"), T.UAString("a > b >= c"), T.UAString("]]>"), T.UAString("<![CDATA[x]]>"), T.UAGuid("g]]>"), T.UALocalizedText("t]]>u", "en"),
              T.UAListOf((T.UAString("]]>"), T.UAString("&<>\"'")), "String"), T.UAString("&amp;"), T.UAString("&#65;"),
+             # text that Unicode normalisation would rewrite (KELVIN SIGN, OHM SIGN, ANGSTROM SIGN, letter + combining accent) in every class that carries text
+             T.UALocalizedText("25 \u212a", "en"), T.UALocalizedText("\u2126", "de"), T.UALocalizedText("e\u0301te\u0301 \u212b", pd.NA), T.UAString("47 k\u2126"), T.UAGuid("\u212a"),
+             T.UAListOf((T.UALocalizedText("\u212b", "en"), T.UALocalizedText("\u00c5", "en")), "LocalizedText"),
+             T.UAEngineeringUnits(T.UALocalizedText("\u2126", "en"), T.UALocalizedText("ohm (\u2126)", "en"), 5, "http://u"),
              # extension objects whose type id is NOT one of the two encoding ids the library maps to its own classes, with bodies that look like those structures
              T.UAExtensionObject(type_nodeid=T.UANodeId(0, "i", "887"), body=T.UAXMLElement('<EUInformation xmlns="http://opcfoundation.org/UA/2008/02/Types.xsd"><NamespaceUri>http://u</NamespaceUri><UnitId>5</UnitId><DisplayName><Locale>en</Locale><Text>m</Text></DisplayName><Description><Locale>en</Locale><Text>metre</Text></Description></EUInformation>')),
              T.UAExtensionObject(type_nodeid=T.UANodeId(0, "i", "884"), body=T.UAXMLElement('<Range xmlns="http://opcfoundation.org/UA/2008/02/Types.xsd"><Low>1.0</Low><High>2.0</High></Range>')),
